@@ -19,7 +19,7 @@ RULE = (
     "operation sequences over {add item to this batch, add item through the kind's active-batch registry, flush, "
     "cancel, cancel(error), cancel(falsy error object), last item.value(), first item.error(), batch.value(), batch.error(), state queries} x flush "
     "body mode {sets all, sets some, sets none, sets item errors, raises Exception part-way, raises BaseException "
-    "part-way, creates a new item while flushing, sets an item twice, cancels its own batch after serving the first item and returns normally} on a BatchBase subclass, and the same operations "
+    "part-way, creates a new item while flushing, sets an item twice, cancels its own batch after serving the first item and returns normally} x user code running WHILE the batch completes {none, a _cancel() hook that hands default values to the still-open items, an item on_computed callback that gives the next open sibling a fallback value} on a BatchBase subclass, and the same operations "
     "on the built-in DebugBatch/DebugBatchItem: ALL sequences up to length 4 (thorough: 5) plus seeded random longer "
     "ones, both builds. Every result/exception is compared with a reference state machine (pending -> flushed | "
     "cancelled, per-item outcomes); a subscriber on the batch's on_computed checks every item is already complete; "
@@ -31,14 +31,23 @@ ASSUMPTIONS = ["items are not completed by hand before the flush (that is C10's 
 UNIT_TIMEOUT = {"quick": 300, "thorough": 2400}
 
 OPS = ["add", "add_reg", "flush", "cancel", "cancel_err", "cancel_falsy", "item_value", "item_error", "batch_value", "batch_error", "query"]
-MODES = ["all", "some", "none", "itemerr", "raise", "raise_base", "raise_falsy", "spawn", "double", "cancel_self"]
+BASE_MODES = ["all", "some", "none", "itemerr", "raise", "raise_base", "raise_falsy", "spawn", "double", "cancel_self"]
+# user code that completes still-open items WHILE the batch is being completed: a _cancel() hook handing out
+# defaults (the documented purpose of _cancel), or an item's on_computed callback giving its next sibling a fallback
+HOOKS = ["cancel_defaults", "sibling"]
+MODES = BASE_MODES + [m + "+" + h for m in ("all", "some", "none", "itemerr", "raise", "raise_base", "cancel_self") for h in HOOKS]
+
+
+def split_mode(mode):
+    m, _, h = mode.partition("+")
+    return m, (h or None)
 
 
 def plan(tier, seed, build, scale):
     units = []
     n = 4 if tier == "quick" else 5
     for m in MODES:
-        deep = tier == "thorough" and m in ("all", "raise", "spawn")
+        deep = tier == "thorough" and m in ("all", "raise", "spawn", "none+sibling", "raise+cancel_defaults")
         units.append({"mode": "exhaustive", "cls": "h", "body": m, "maxlen": n + (1 if deep else 0), "cases": [0, 1], "timeout": 2400, "case_timeout": 150})
     units.append({"mode": "exhaustive", "cls": "debug", "body": "all", "maxlen": n, "cases": [0, 1]})
     nr = int((3000 if tier == "quick" else 60000) * scale)
@@ -62,7 +71,7 @@ def classes():
         def __init__(self, reg, mode):
             BatchBase.__init__(self)
             self.reg = reg
-            self.mode = mode
+            self.mode, self.hook = split_mode(mode)
             self.body_runs = 0
             self.cancel_hooks = 0
             self.active_during_body = None
@@ -80,6 +89,10 @@ def classes():
 
         def _cancel(self):
             self.cancel_hooks += 1
+            if self.hook == "cancel_defaults":
+                for i, it in enumerate(self.all_items):
+                    if not it.is_computed():
+                        it.set_value(("default", i))
 
         def _flush(self):
             self.body_runs += 1
@@ -87,7 +100,7 @@ def classes():
             m = self.mode
             items = list(self.items)
             if m == "spawn":
-                self.spawned = new_item(self.reg, self.mode)
+                self.spawned = new_item(self.reg, m)
             for i, it in enumerate(items):
                 if m in ("all", "spawn"):
                     it.set_value(("iv", i))
@@ -121,6 +134,18 @@ def classes():
         def __init__(self, batch):
             BatchItemBase.__init__(self, batch)
             batch.all_items.append(self)
+            self.idx = len(batch.all_items) - 1
+            if batch.hook == "sibling":
+                self.on_computed.subscribe(self._fallback_for_sibling)
+
+        def _fallback_for_sibling(self, _me):
+            # when the batch has finished and left this request without an answer, the next request (if still
+            # open) is given a fallback value
+            b = self.batch
+            if b.is_computed() and self.error() is not None and self.idx + 1 < len(b.all_items):
+                nxt = b.all_items[self.idx + 1]
+                if not nxt.is_computed():
+                    nxt.set_value(("fallback", nxt.idx))
 
     _cls["Batch"] = Batch
     _cls["Item"] = Item
@@ -140,7 +165,7 @@ def new_item(reg, mode):
 
 class Model(object):
     def __init__(self, mode, nitems):
-        self.mode = mode
+        self.mode, self.hook = split_mode(mode)
         self.state = "pending"
         self.n = nitems
         self.err = None
@@ -151,51 +176,49 @@ class Model(object):
         self.body_runs += 1
         m = self.mode
         n = self.n
-        out = []
+        out = []  # None = the body left the item open
         berr = None
         for i in range(n):
             if m in ("all", "spawn"):
                 out.append(("val", ("iv", i)))
             elif m == "some":
-                out.append(("val", ("iv", i)) if i % 2 == 0 else ("exc", ("Unset",)))
+                out.append(("val", ("iv", i)) if i % 2 == 0 else None)
             elif m == "none":
-                out.append(("exc", ("Unset",)))
+                out.append(None)
             elif m == "itemerr":
                 out.append(("exc", ("UserErr", ("itemerr", i))))
             elif m in ("raise", "raise_base", "raise_falsy"):
-                d = ({"raise": "UserErr", "raise_base": "UserBaseErr", "raise_falsy": "FalsyErr"}[m], ("flush",))
-                if i == 0 and n > 1:
-                    out.append(("val", ("iv", 0)))
-                elif i == 0:
-                    out.append(("val", ("iv", 0)))
-                else:
-                    out.append(("exc", d))
-                berr = d
+                out.append(("val", ("iv", 0)) if i == 0 else None)
+                berr = ({"raise": "UserErr", "raise_base": "UserBaseErr", "raise_falsy": "FalsyErr"}[m], ("flush",))
             elif m == "double":
-                if i == 0:
-                    out.append(("val", ("iv", 0)))
-                else:
-                    out.append(("exc", ("FutureIsAlreadyComputed",)))
+                out.append(("val", ("iv", 0)) if i == 0 else None)
                 berr = ("FutureIsAlreadyComputed",)
             elif m == "cancel_self":
-                if i == 0:
-                    out.append(("val", ("iv", 0)))
-                else:
-                    out.append(("exc", ("UserErr", ("connection-lost",))))
+                out.append(("val", ("iv", 0)) if i == 0 else None)
+                if i > 0:
                     berr = ("UserErr", ("connection-lost",))
         if m in ("raise", "raise_base", "raise_falsy") and n <= 1:
             berr = ({"raise": "UserErr", "raise_base": "UserBaseErr", "raise_falsy": "FalsyErr"}[m], ("flush",))
-            # the only item was set before the raise happens? no: with <=1 items the body sets item 0 first
-        if m == "double" and n == 0:
-            berr = None
+        self._complete(out, berr)
+
+    def finish_by_cancel(self, d):
+        self._complete([None] * self.n, d)
+
+    def _complete(self, out, berr):
+        """What completing the batch does to the items still open (BatchBase._computed), including the user
+        code that runs meanwhile."""
+        cancelled = berr is not None
+        if cancelled and self.hook == "cancel_defaults":
+            out = [("val", ("default", i)) if o is None else o for i, o in enumerate(out)]
+        e = berr if cancelled else ("Unset",)
+        for i in range(len(out)):
+            if out[i] is None:
+                out[i] = ("exc", e)
+                if self.hook == "sibling" and i + 1 < len(out) and out[i + 1] is None:
+                    out[i + 1] = ("val", ("fallback", i + 1))
         self.item_out = out
         self.err = berr
         self.state = "flushed" if berr is None else "cancelled"
-
-    def finish_by_cancel(self, d):
-        self.err = d
-        self.item_out = [("exc", d) for _ in range(self.n)]
-        self.state = "cancelled"
 
 
 def xdesc(e):
@@ -220,6 +243,7 @@ def run_h(mode, seq):
     items = [new_item(reg, mode), new_item(reg, mode)]
     b = reg["active"]
     m = Model(mode, 2)
+    mode, hook = split_mode(mode)
     viol = []
     finished_then_observed = False
     reached = set()
@@ -347,7 +371,7 @@ def run_h(mode, seq):
                     if sp is None or sp.batch is b or sp.batch.is_flushed():
                         viol.append(("item-created-during-flush-did-not-join-fresh-batch", {}))
             # same error instance for every leftover item
-            if mode in ("raise", "raise_base", "raise_falsy") and m.body_runs and b.flush_exc is not None:
+            if hook is None and mode in ("raise", "raise_base", "raise_falsy") and m.body_runs and b.flush_exc is not None:
                 for it in b.all_items[1:]:
                     if it.error() is not b.flush_exc:
                         viol.append(("leftover-item-error-is-not-the-flush-exception", {}))
